@@ -631,3 +631,9 @@ mutant("M107-work-dir-used-directly", ["C19", "C20", "C10"], "CLEANUP-1", (PLAN,
 
 mutant("M108-pad-after-uses-before-value", ["C01"], "TWIN-ROLE-1", ("cubed/array/pad.py", "                    tuple(shape),\n                    val_after,", "                    tuple(shape),\n                    val_before,"))
 mutant("M109-blockview-nominal-chunks", ["C12"], "META-1", ("cubed/core/indexing.py", "        chunks = tuple(\n            tuple(np.array(ch)[ia].tolist())\n            for ia, ch in zip(idx.raw, self.array.chunks)\n        )", "        nsel = idx.newshape(self.array.numblocks)\n        chunks = tuple((cs,) * n for cs, n in zip(self.array.chunksize, nsel))"))
+
+
+# ---------------------------------------------------------------- whole-tree benign transforms
+ALL_PROPS = [f"C{i:02d}" for i in range(1, 21) if i != 14]
+CORPUS.append({"id": "B-unparse-roundtrip-every-module", "kind": "benign", "props": ALL_PROPS, "rule": None, "edits": [], "transform": "unparse-all"})
+CORPUS.append({"id": "B-shift-all-line-numbers", "kind": "benign", "props": ALL_PROPS, "rule": None, "edits": [], "transform": "shift-lines"})
